@@ -30,10 +30,13 @@ deriving Repr, DecidableEq
 def encPre3 (m : St × Writer × Nat) (bytes : Nat) : Out (St × Writer × Nat) := encPrelude m.1 m.2.1 m.2.2 bytes
 
 /-- state and storage bit string after the magic block and the prelude -/
-def encMid (s : St) (il : Bool) : St × Writer :=
-  match encPre3 (encMagic (encEntry s il) s.carry) (s.unprocessed % two32) with
+def encMidOf (r : Out (St × Writer × Nat)) (s : St) : St × Writer :=
+  match r with
   | .ok (s2, w, _) => (s2, w)
   | _ => (s, s.carry)
+
+def encMid (s : St) (il : Bool) : St × Writer :=
+  encMidOf (encPre3 (encMagic (encEntry s il) s.carry) (s.unprocessed % two32)) s
 
 /-- are the payload encoder's bits emitted by this invocation (or only the skeleton's)? -/
 def encTakes (s : St) (ans : Ans) (il ff : Bool) : Bool :=
